@@ -11,6 +11,8 @@ Parts (corpus cases of the two repaired defects are run first, through the same 
   A  the uncertainty reaches the user aligned: ssi.SSI_mpe with covariance tables and SSIcov / SSIdat(cov_mm).mpe after a calc_unc
      run, order as int / list / "find_min", request lists with missed requests before / between / after found ones: one variance
      per extracted frequency, and it is the table entry of the pole that produced that frequency.
+  I  input forms the property does not restrict: every array input read-only, option values as NumPy scalars / 0-d arrays,
+     records stored as integers of any width or float32 - the same variances as the plain form of the same values.
   G  SSIcov(calc_unc=True) through SingleSetup (hard criteria loosened so nothing is masked): result.Fn_poles_cov identical to
      SSI_fast + SSI_poles on build_hank's own H, T, and judged against the finite-difference oracle; includes the small edge of
      the quantifier (l in {1,2}, br in {2,3}) with 2..30 factor columns, below / at / above the number of Hankel entries.
@@ -663,6 +665,8 @@ def run(ctx):
             run_mpe_function(ctx, case)
         elif case["kind"] == "mpe-class":
             run_mpe_class(ctx, case)
+        elif case["kind"] == "forms":
+            run_forms(ctx, case)
 
     lap("corpus")
     # ---- part F
@@ -711,6 +715,9 @@ def run(ctx):
     # ---- part A: the uncertainty reaches the user aligned
     mpe_stream(ctx)
     lap("mpe_aligned")
+    # ---- part I: input forms the property does not restrict
+    forms_stream(ctx)
+    lap("input_forms")
 
 
 LOOSE_HC = dict(conj=False, xi_max=1e9, mpc_lim=-1.0, mpd_lim=1e9, cov_max=1e300)  # hard criteria that mask nothing
@@ -1002,3 +1009,178 @@ def glue(ctx):
         ordmax = int(min(4, br * l, (br + 1) * len(refs)))
         Y = gen_data(rng, l, 2 if l == 1 else 4, int(rng.integers(700, 1500)))
         check_class(ctx, dict(kind="class", refs=refs, br=br, ordmax=ordmax, nb=nb, fs=float(rng.choice([20.0, 50.0])), Y=Y.tolist()))
+
+
+# ----------------------------------------------------------------------------------------------------------------
+# input FORMS the property does not restrict: read-only arrays, NumPy-scalar option values, storage dtypes
+# (established on the unchanged tree:  every array input may be read-only;  br / nb / ordmax / step / ref_ind entries may be
+#  int, np.int64, np.int32, an element of np.arange, a 0-d array;  dt / fs / rtol may be float, np.float64, a 0-d array;
+#  the CLASS takes calc_unc as True / 1 / np.True_ alike, the FUNCTIONS switch uncertainties on for the literal True only and treat
+#  1 / np.True_ alike (off);  SSI_mpe takes order as int or as a list whose entries may be NumPy integers - a bare np.int64 order is
+#  rejected by the unchanged tree and is not required;  integer records of any width and float32 records / matrices are accepted)
+# ----------------------------------------------------------------------------------------------------------------
+INT_FORMS = {"int": int, "int64": np.int64, "int32": np.int32, "arange": lambda v: np.arange(int(v) + 1)[int(v)], "0d": lambda v: np.array(int(v))}
+FLOAT_FORMS = {"float": float, "float64": np.float64, "0d": lambda v: np.array(float(v))}
+BOOL_FORMS = {"True": True, "1": 1, "np.True_": np.True_}
+
+
+def _ro(a):
+    a = np.array(a, copy=True)
+    a.setflags(write=False)
+    return a
+
+
+def fn_pipeline(Y, Yr, br, nb, ordmax, dt, step=1, readonly=False, req=None, order=None, rtol=5e-2):
+    """build_hank -> SSI_fast -> SSI_poles (-> SSI_mpe), calc_unc=True; with readonly every array handed over is read-only.
+    Returns (Fn_cov table, extracted Fn_cov or None, list of (name, array handed over, private copy))."""
+    wrap = _ro if readonly else (lambda a: a)
+    given = []
+
+    def g(name, a):
+        a = wrap(a)
+        given.append((name, a, np.array(a, copy=True)))
+        return a
+    H, T = ssi.build_hank(g("Y", Y), g("Yref", Yr), br, "cov_mm", calc_unc=True, nb=nb)
+    o = ssi.SSI_fast(g("H", H), br, ordmax, step=step, calc_unc=True, T=g("T", T), nb=nb)
+    r = ssi.SSI_poles(g("Obs", o[0]), [g("A", a) for a in o[1]], [g("C", c) for c in o[2]], ordmax, dt, step=step, calc_unc=True,
+                      Q1=g("Q1", o[3]), Q2=g("Q2", o[4]), Q3=g("Q3", o[5]), Q4=g("Q4", o[6]))
+    sel = None
+    if req is not None:
+        Lab = np.where(np.isfinite(r[0]), 1, 0)
+        sel = ssi.SSI_mpe(req, g("Fn_pol", r[0]), g("Xi_pol", r[1]), g("Phi_pol", r[2]), order, Lab=g("Lab", Lab), rtol=rtol,
+                          Fn_cov=g("Fn_pol_cov", r[4]), Xi_cov=g("Xi_pol_cov", r[5]), Phi_cov=g("Phi_pol_cov", r[6]))[4]
+    return np.asarray(r[4], float), sel, given
+
+
+def tables_agree(a, b, rtol):
+    a, b = np.asarray(a, float), np.asarray(b, float)
+    if a.shape != b.shape or not np.array_equal(np.isfinite(a), np.isfinite(b)):
+        return False
+    m = np.isfinite(a)
+    return bool(np.all(np.abs(a[m] - b[m]) <= rtol * np.abs(b[m])))
+
+
+def run_forms(ctx, case):
+    """One base input, presented in other FORMS; every accepted form of the same value must give the same variances (the plain form
+    itself is judged by the finite-difference oracle)."""
+    from pyoma2.algorithms import SSIcov
+    from pyoma2.setup import SingleSetup
+    Y = np.array(case["Y"], float)  # integer-valued records (A/D counts)
+    refs, br, nb, ordmax, fs = case["refs"], case["br"], case["nb"], case["ordmax"], case["fs"]
+    dt = 1.0 / fs
+    var = case["variant"]
+    item = var["item"]
+    ctx.hist("forms", "%s:%s" % (item, var.get("dtype") or var.get("int") or ""))
+    ctx.count(case)
+    if item == "dtype" and var["dtype"].startswith("uint"):
+        Y = Y - Y.min()
+    if item == "dtype" and var["dtype"] == "float32":
+        Y = (Y / 7.0).astype(np.float32).astype(float)  # the float64 image of a float32 record
+    Yr = Y[refs, :]
+    try:
+        base_tab, _, _ = fn_pipeline(Y, Yr, br, nb, ordmax, dt)
+    except Exception as e:
+        ctx.fail("oracle", "uncertainty pipeline raised %s on plain float64 inputs" % type(e).__name__, case, key="C17:prop:raises")
+        return
+    H0, T0 = ssi.build_hank(Y, Yr, br, "cov_mm", calc_unc=True, nb=nb)
+    inside = check_propagation(ctx, dict(case, note="plain forms; H, T = build_hank(Y, Y[refs], br, cov_mm, calc_unc=True, nb)"),
+                               np.asarray(H0), np.asarray(T0), br, ordmax, dt, "forms") is not None
+    col = base_tab[:, ordmax]
+    col_f = ssi.SSI_poles(*ssi.SSI_fast(np.asarray(H0), br, ordmax)[:3], ordmax, dt)[0][:, ordmax]
+    req = [float(col_f[np.isfinite(col_f)][0]) * 1.003] if np.isfinite(col_f).any() else None
+
+    def base_class(Yd):
+        ss = SingleSetup(Yd.T.copy(), fs=fs)
+        alg = SSIcov(name="u", method="cov_mm", br=br, ordmax=ordmax, ref_ind=refs, calc_unc=True, nb=nb, hc=dict(LOOSE_HC))
+        ss.add_algorithms(alg)
+        ss.run_by_name("u")
+        return np.asarray(alg.result.Fn_poles_cov, float)
+
+    def judge(what, got, exp, rtol, site):
+        if not tables_agree(got, exp, rtol):
+            ctx.fail("oracle", "%s: %s gives other frequency variances than the plain form of the same value (tolerance %g)" % (site, what, rtol),
+                     case, key="C17:forms:%s:value" % item)
+
+    try:
+        if item == "readonly":
+            tab, sel, given = fn_pipeline(Y, Yr, br, nb, ordmax, dt, readonly=True, req=req, order=[ordmax] if req else None)
+            for name, a, keep in given:
+                if not np.array_equal(a, keep, equal_nan=True):
+                    ctx.fail("oracle", "the function wrote into its input %s" % name, case, key="C17:forms:readonly:written")
+            judge("read-only input arrays", tab, base_tab, 1e-12, "build_hank/SSI_fast/SSI_poles/SSI_mpe")
+            d = Y.T.copy()  # same memory layout as the plain run
+            d.setflags(write=False)
+            ss = SingleSetup(d, fs=fs)
+            alg = SSIcov(name="u", method="cov_mm", br=br, ordmax=ordmax, ref_ind=refs, calc_unc=True, nb=nb, hc=dict(LOOSE_HC))
+            ss.add_algorithms(alg)
+            ss.run_by_name("u")
+            judge("a read-only data array", alg.result.Fn_poles_cov, base_class(Y), 1e-12, "SSIcov through SingleSetup")
+            if not np.array_equal(d, Y.T):
+                ctx.fail("oracle", "the class wrote into the caller's data array", case, key="C17:forms:readonly:written")
+        elif item == "optforms":
+            fi, ff = INT_FORMS[var["int"]], FLOAT_FORMS[var["float"]]
+            order = [fi(ordmax)] if req else None
+            tab, sel, _ = fn_pipeline(Y, Yr, fi(br), fi(nb), fi(ordmax), ff(dt), step=fi(1), req=req, order=order, rtol=ff(5e-2))
+            judge("br / nb / ordmax / step as %s, dt / rtol as %s" % (var["int"], var["float"]), tab, base_tab, 1e-12, "build_hank/SSI_fast/SSI_poles")
+            if req:
+                _, sel0, _ = fn_pipeline(Y, Yr, br, nb, ordmax, dt, req=req, order=[ordmax])
+                if np.shape(sel) != np.shape(sel0) or not tables_agree(sel, sel0, 1e-12):
+                    ctx.fail("oracle", "SSI_mpe: orders given as %s in a list / rtol as %s give other variances than plain int / float"
+                             % (var["int"], var["float"]), case, key="C17:forms:optforms:value")
+            # the functions' calc_unc: 1 and np.True_ are treated alike by the unchanged tree (whatever that treatment is)
+            outs = [ssi.build_hank(Y, Yr, br, "cov_mm", calc_unc=b, nb=nb)[1] for b in (1, np.True_)]
+            if (outs[0] is None) != (outs[1] is None) or (outs[0] is not None and not np.array_equal(outs[0], outs[1])):
+                ctx.fail("oracle", "build_hank treats calc_unc=1 and calc_unc=np.True_ differently", case, key="C17:forms:optforms:bool")
+            exp = base_class(Y)
+            ss = SingleSetup(Y.T.copy(), fs=ff(fs))
+            rf = [fi(x) for x in refs] if var["int"] != "0d" else np.array(refs)
+            alg = SSIcov(name="u", method="cov_mm", br=fi(br), ordmax=fi(ordmax), ref_ind=rf, calc_unc=BOOL_FORMS[var["bool"]], nb=fi(nb),
+                         hc=dict(LOOSE_HC))
+            ss.add_algorithms(alg)
+            ss.run_by_name("u")
+            if alg.result.Fn_poles_cov is None:
+                ctx.fail("oracle", "SSIcov(calc_unc=%s) stores no variances although the class accepts that form as true" % var["bool"], case,
+                         key="C17:forms:optforms:bool")
+            else:
+                judge("br / ordmax / nb / ref_ind as %s, fs as %s, calc_unc=%s" % (var["int"], var["float"], var["bool"]),
+                      alg.result.Fn_poles_cov, exp, 1e-12, "SSIcov through SingleSetup")
+        else:
+            dtp = np.dtype(var["dtype"])
+            rt = 1e-2 if dtp == np.float32 else 1e-9
+            if dtp == np.float32 and not inside:
+                return  # float32 is only judged on inputs inside the property's guards (conditioning)
+            Yd = Y.astype(dtp)
+            tab, _, _ = fn_pipeline(Yd, Yd[refs, :], br, nb, ordmax, dt)
+            judge("records stored as %s" % dtp, tab, base_tab, rt, "build_hank/SSI_fast/SSI_poles")
+            if dtp == np.float32:
+                o = ssi.SSI_fast(np.asarray(H0).astype(dtp), br, ordmax, calc_unc=True, T=np.asarray(T0).astype(dtp), nb=nb)
+                r = ssi.SSI_poles(o[0], o[1], o[2], ordmax, dt, calc_unc=True, Q1=o[3], Q2=o[4], Q3=o[5], Q4=o[6])
+                judge("Hankel matrix and factor stored as float32", r[4], base_tab, rt, "SSI_fast/SSI_poles")
+            ss = SingleSetup(Yd.T.copy(), fs=fs)
+            alg = SSIcov(name="u", method="cov_mm", br=br, ordmax=ordmax, ref_ind=refs, calc_unc=True, nb=nb, hc=dict(LOOSE_HC))
+            ss.add_algorithms(alg)
+            ss.run_by_name("u")
+            judge("data stored as %s" % dtp, alg.result.Fn_poles_cov, base_class(Y), rt, "SSIcov through SingleSetup")
+    except Exception as e:
+        ctx.fail("oracle", "%s form of the inputs (%s) raised %s: %s - the plain form of the same values is accepted"
+                 % (item, {k: v for k, v in var.items() if k != "item"}, type(e).__name__, str(e)[:120]), case, key="C17:forms:%s:raises" % item)
+
+
+def forms_stream(ctx):
+    rng = ctx.np_rng
+    for k in range(ctx.n(9, 90)):
+        l = int(rng.integers(1, 4))
+        refs = sorted(rng.choice(l, size=int(rng.integers(1, l + 1)), replace=False).tolist())
+        br = int(rng.integers(2, 5))
+        ordmax = int(min(4, br * l, (br + 1) * len(refs)))
+        if ordmax < 2:
+            continue
+        Y = np.round(gen_data(rng, l, 4, int(rng.integers(400, 800))) * 8)  # integer counts
+        item = ("readonly", "optforms", "dtype")[k % 3]
+        var = dict(item=item)
+        if item == "optforms":
+            var.update(int=["int64", "0d", "arange", "int32"][(k // 3) % 4], float=["0d", "float64"][(k // 3) % 2], bool=["np.True_", "1"][(k // 3) % 2])
+        elif item == "dtype":
+            var.update(dtype=["int32", "float32", "uint16", "int64", "int16", "uint32"][(k // 3) % 6])
+        run_forms(ctx, dict(kind="forms", refs=refs, br=br, nb=int(rng.integers(2, 9)), ordmax=ordmax, fs=float(rng.choice([20.0, 50.0])),
+                            variant=var, Y=Y.tolist()))
